@@ -20,7 +20,7 @@ from concurrent.futures import ThreadPoolExecutor
 import lib
 from lib import coq_list
 
-COQ_TARGETS = ["theories/Proofs/CacheLemmas.vo", "theories/Proofs/CacheMemo.vo"]
+COQ_TARGETS = ["theories/Proofs/CacheLemmas.vo", "theories/Proofs/CacheMemo.vo", "theories/Model/CacheToy.vo"]
 WORKER = os.path.join(lib.VERIF, "harness", "c12_worker.py")
 THEOREMS = ["C12_memo_transparent", "C12_memo_transparent_immutable", "C12_history_independent",
             "C12_inputs_untouched", "C12_refuted_strload_alias", "C12_refuted_isoformat_offset",
@@ -223,6 +223,26 @@ def gen_history(rng, maxlen):
             ops.append({"op": opk, "t": t, "x": xs})
             if opk in ("unmarshal", "marshal", "decode", "cdecode"):
                 nres.append(i)
+    # scenarios of the quantifier that random choice meets too rarely: a result that may be the cache's object is
+    # mutated and the same text is read again; equal instants with different offsets follow each other
+    r = rng.random()
+    if r < 0.3:
+        t1 = rng.choice([BL, BD, ["L", BL], ["D", BL], ["L", INT], ["L", ["L", INT]]])
+        txt = gen_text(rng, t1)
+        x = rng.choice([["s", txt], ["y", txt]])
+        ops.append({"op": "unmarshal", "t": t1, "x": {"new": x}})
+        ops.append({"op": "mutres", "i": len(ops) - 1, "path": rng.choice([[], [0], [1]])})
+        fam2 = [t1, t1, BD] if t1[0] in ("BD", "D") else [t1, t1, BL]
+        ops.append({"op": "unmarshal", "t": rng.choice(fam2), "x": {"new": x}})
+    elif r < 0.5:
+        a, b = rng.sample([DT_A, DT_B], 2)
+        t1 = rng.choice([DTT, STR, BYT, ["L", DTT], U("typing", DTT, STR)])
+        wrap = (lambda v: ["l", [v]]) if t1[0] == "L" else (lambda v: v)
+        k1 = "marshal" if t1 in (DTT, ["L", DTT]) or t1[0] == "U" else "unmarshal"
+        ops.append({"op": k1, "t": t1, "x": {"new": wrap(a)}})
+        if rng.random() < 0.3:
+            ops.append({"op": rng.choice(["clear", "build_u"]), "t": t1})
+        ops.append({"op": rng.choice([k1, "encode"]) if k1 == "marshal" else k1, "t": t1, "x": {"new": wrap(b)}})
     return ops
 
 
@@ -470,18 +490,25 @@ def emit_world(w) -> str:
 _state: dict = {}
 
 
+_lib_findings = lib.Run.findings
+
+
 def local_findings(run):
-    """findings.d/C12.json is merged into known_findings.json by the lead; until then read it directly"""
-    base = lib.Run.findings(run)
+    """findings.d/C12.json is merged into known_findings.json by the lead (harness/mkfindings.py); until then the
+    entries of this property are read from findings.d directly.  lib.py is not edited: the method is wrapped here,
+    in the process that checks C12 only."""
+    base = _lib_findings(run)
     p = os.path.join(lib.VERIF, "findings.d", "C12.json")
-    if os.path.exists(p):
+    if run.prop == "C12" and os.path.exists(p):
         have = {e["id"] for e in base}
-        base += [e for e in json.load(open(p)).get("open", []) if e["id"] not in have and e["property"] == run.prop]
+        base = base + [e for e in json.load(open(p)).get("open", []) if e["id"] not in have and e["property"] == run.prop]
     return base
 
 
+lib.Run.findings = local_findings
+
+
 def prove(run: lib.Run):
-    run.findings = lambda: local_findings(run)
     run.check_props("Props/C12.v", THEOREMS)
     # reflected cache parameters: which functions are cached at all, their maxsize / typed flags
     try:
@@ -713,6 +740,10 @@ def search(run: lib.Run, broken):
         d = explained if hit else unexplained
         if k not in d or len(f["history"]) < len(d[k]["history"]):
             d[k] = f
+    stats["failures_by_cause"] = {}
+    for f in fails:
+        kk = f["symptom"][:30] + " / " + str(f.get("cause"))
+        stats["failures_by_cause"][kk] = stats["failures_by_cause"].get(kk, 0) + 1
     stats["unexplained_failures"] = sum(1 for f in fails if not any(matches(e, f) for e in entries))
     out = []
     for k, f in sorted(unexplained.items(), key=lambda kv: len(kv[1]["history"]))[:10]:
